@@ -17,7 +17,7 @@ TIMEOUT_MS = {"quick": 60000, "thorough": 300000}
 
 
 def tasks(tier):
-    n = 2 if tier == "quick" else 3
+    n = 2 if tier == "quick" else 4
     t = [("t_phase_fraction", {"n_grains": n, "phase": ph}) for ph in ("olivine", "enstatite")]
     t += [("t_phi_times_mobility", {"n_grains": n, "regime": rg}) for rg in ("matrix_dislocation", "frictional_yielding")]
     t += [("t_no_shared_state", {"n_grains": n}), ("t_update_all_order", {})]
